@@ -146,6 +146,12 @@ func (c11) Gen(seed uint64, idx int, tier string) *Scenario {
 			sc.Fill = r.Range(1, 4096*6)
 		}
 	}
+	if sc.Class == "deep" {
+		// thousands of diagnostics, or a trace that prints a stack of thousands of cells at every
+		// step: on gated writers that is legitimately millions of scheduler steps. The point of
+		// this class is the parser outcome, so the writers are not gated and the observers are off.
+		sc.GateOut, sc.GateLog, sc.Opts = false, false, 0
+	}
 	if sc.Opts != 0 && sc.Fill > 2000 {
 		// every line of a listing or trace is several gated writes: keep long
 		// generated outputs off the gate so that runs stay within the step bound
